@@ -34,7 +34,8 @@ def run(ctx):
         for order in (2, 3, 4, 5, 6):
             nodes, w = fd[order + 1]
             for nz in sorted({order + 1, order + 2, 9 if quick else 11}):
-                for iota in (0.0, 0.8, "r-dependent", "integer-radii"):
+                # (9.5: a transform so large that the outer stencil points are turned by more than a full turn in theta)
+                for iota in (0.0, 0.8, "r-dependent", "integer-radii") + ((9.5, -9.5) if nz == order + 1 else ()):
                     L = fa.Lines(sp, nz, rng)
                     R0 = 2.0
                     rs = np.array([0.5, 1.0, 1.7, 2.5, 3.1])
@@ -58,6 +59,10 @@ def run(ctx):
                             lay = Layout("v_parallel_1d", nprocs, order_, eta[:3], rc)
                             rpos = order_.index(0)
                             try:
+                                if nprocs == [1]:
+                                    # an operator built BEFORE on the same theta spline, sizes and radii but with another transform
+                                    # (and then dropped) has no bearing on this one
+                                    ParallelGradient(L.basis, eta, lay, fa.consts(0.37, R0), order)
                                 pg = ParallelGradient(L.basis, eta, lay, c, order)
                             except Exception as ex:
                                 ctx.violation({"kind": "constructor-raises", "error": type(ex).__name__, "order": order}, "ParallelGradient raised %s: %s (nz=%d, order=%d)" % (
